@@ -62,9 +62,28 @@ func init() {
 	Exec["bitmap.Fmt"] = func(a []V) string {
 		return Str(bitmap.Fmt(c12FmtArg(a[0].Int(), a[1].Bool(), a[2].Bool(), a[3].L)))
 	}
-	// widening: Of / OfMany on every input (same executors, no domain restriction)
-	Exec["bitmap.Of/any"] = Exec["bitmap.Of"]
-	Exec["bitmap.OfMany/any"] = Exec["bitmap.OfMany"]
+	// widening: OfMany(subs, sizes) against Of(shifted concatenation, sum of sizes); only the relation is observed
+	Exec["bitmap.OfMany/asOf"] = func(a []V) string {
+		subs := make([][]int32, len(a[0].L))
+		for i, s := range a[0].L {
+			subs[i] = s.I32s()
+		}
+		sizes := a[1].I32s()
+		var all []int32
+		base := int32(0)
+		for i, e := range subs {
+			for _, p := range e {
+				all = append(all, base+p)
+			}
+			base += sizes[i]
+		}
+		x := c12Try(func() []uint64 { return bitmap.OfMany(subs, sizes) })
+		y := c12Try(func() []uint64 { return bitmap.Of(all, base) })
+		if x == y {
+			return "[1]"
+		}
+		return L("0", x, y)
+	}
 	// widening: the constructors composed with the readers of C01 / C13
 	Exec["bitmap.Of/query"] = func(a []V) string {
 		return c12Query(c12Of(a[0].I32s(), a[1].L), a[2].Bool(), a[3].I32(), a[4].I32())
@@ -81,6 +100,16 @@ func init() {
 		return c12Query(b.Words, a[2].Bool(), a[3].I32(), a[4].I32())
 	}
 	Register("C12", genC12)
+}
+
+// c12Try renders the result of f, or P if it panics
+func c12Try(f func() []uint64) (out string) {
+	defer func() {
+		if recover() != nil {
+			out = "P"
+		}
+	}()
+	return U64s(f())
 }
 
 func c12MaxInt(a, b int) int {
@@ -663,64 +692,15 @@ func genC12(g *Gen) {
 		g.Do("bitmap.Builder/query", L(Int(n), L(ops...), B(g.R.Bool()), Int(i), Int(e)), key)
 	}
 
-	// (9) widening: Of and OfMany on ANY input: unsorted lists, negative positions, a last element smaller than
-	// the maximum (positions beyond the allocated words panic), n around the maximum; OfMany with positions
-	// >= size in any segment and small negative sizes
-	anyList := func() []int32 {
-		n := g.R.Range(0, 8)
-		ps := make([]int32, n)
-		top := g.R.Pick(64, 65, 130, 700)
-		for i := range ps {
-			switch g.R.Intn(8) {
-			case 0:
-				ps[i] = int32(-g.R.Pick(1, 2, 63, 64, 65, 1000))
-			case 1:
-				ps[i] = int32(g.R.Pick(0, 63, 64, 127, 128))
-			default:
-				ps[i] = int32(g.R.Intn(top))
-			}
-		}
-		return ps
-	}
-	na := g.N(1500, 40000)
-	for k := 0; k < na; k++ {
-		ps := anyList()
-		mx, neg, srt := -1, false, true
-		for i, p := range ps {
-			if int(p) > mx {
-				mx = int(p)
-			}
-			if p < 0 {
-				neg = true
-			}
-			if i > 0 && p < ps[i-1] {
-				srt = false
-			}
-		}
-		last := -1
-		if len(ps) > 0 {
-			last = int(ps[len(ps)-1])
-		}
-		o := g.R.Pick(0, 1, 2, 3, 4, 5)
-		os := []string{"[]", L(Int(mx)), L(Int(mx + 1)), L(Int(mx/64*64 + 64)), L(Int(mx/64*64 + 65)), L(Int(g.R.Intn(800) - 100))}[o]
-		key := ""
-		if len(ps) > 1 {
-			key = fmt.Sprintf("OA/neg%v/sorted%v/lastmax%v/o%d", neg, srt, last == mx, o)
-		}
-		g.Stat("of-any")
-		g.Do("bitmap.Of/any", L(I32s(ps), os), key)
-	}
-	for k := 0; k < g.N(1000, 25000); k++ {
+	// (9) widening: OfMany against Of on the shifted concatenation, positions >= size in ANY segment (the
+	// concatenation need not be ascending and Of may panic); sizes >= 0, every segment ascending and non-negative
+	for k := 0; k < g.N(1200, 30000); k++ {
 		nseg := g.R.Range(0, 5)
 		subs := make([][]int32, nseg)
 		sizes := make([]int32, nseg)
-		over, negsz := false, false
+		over := false
 		for s := 0; s < nseg; s++ {
 			size := g.R.Pick(0, 1, 5, 63, 64, 65, 100, 128)
-			if g.R.Intn(12) == 0 {
-				size = -g.R.Pick(1, 5, 64)
-				negsz = true
-			}
 			sizes[s] = int32(size)
 			subs[s] = []int32{}
 			if g.R.Intn(4) > 0 {
@@ -734,9 +714,9 @@ func genC12(g *Gen) {
 		}
 		key := ""
 		if nseg > 1 {
-			key = fmt.Sprintf("OMA/seg%d/over%v/negsz%v", nseg, over, negsz)
+			key = fmt.Sprintf("OMA/seg%d/over%v", nseg, over)
 		}
-		g.Stat("ofmany-any")
-		g.Do("bitmap.OfMany/any", L(c12Subs(subs), I32s(sizes)), key)
+		g.Stat("ofmany-asof")
+		g.Do("bitmap.OfMany/asOf", L(c12Subs(subs), I32s(sizes)), key)
 	}
 }
